@@ -155,6 +155,40 @@ Proof.
 Qed.
 Print Assumptions rewrite_absent_dir_becomes_none.
 
+(* The chain-file analogue.  A chain record is written and read, the tag is set for flavor g
+   (ChainFile.setVersion, what assignTag and a tagged declare do) or removed for it
+   (removeVersion, what unassignTag and undeclare do), the record is written and read again:
+   every other flavor keeps its tagged version. *)
+Lemma cf_get_version_cnorm c f : wf_cfile c = true -> cf_get_version f (cnorm c) = cf_get_version f c.
+Proof. apply cf_versions_kept. Qed.
+
+Theorem chain_rewrite_keeps_others c f g (change : cfile -> cfile) :
+  wf_cfile c = true -> cf_info c <> [] -> f <> g ->
+  (exists who now v, change = cf_set_version who now v g) \/ change = cf_remove_version g ->
+  let x := change (cnorm c) in
+  wf_cfile x = true -> cf_info x <> [] ->
+  exists l1 l2 c2,
+    cf_lines c = Ok l1 /\ cf_read (cf_name c) (cf_tag c) l1 = Ok (cnorm c) /\
+    cf_lines x = Ok l2 /\ cf_read (cf_name c) (cf_tag c) l2 = Ok c2 /\
+    cf_get_version f c2 = cf_get_version f c.
+Proof.
+  intros Hwf Hne Nfg Hch x Hwx Hnx.
+  destruct (cf_read_lines c Hwf Hne) as [l1 [E1 R1]].
+  destruct (cf_read_lines x Hwx Hnx) as [l2 [E2 R2]].
+  assert (Names : cf_name x = cf_name c /\ cf_tag x = cf_tag c).
+  { unfold x. destruct Hch as [[who [now [v ->]]] | ->]; split; reflexivity. }
+  destruct Names as [Nn Nt].
+  exists l1, l2, (cnorm x). repeat split; try assumption.
+  - apply R1; now right.
+  - apply R2; right; congruence.
+  - rewrite cf_get_version_cnorm by assumption. rewrite <- (cf_get_version_cnorm c f Hwf).
+    unfold x, cf_get_version.
+    destruct Hch as [[who [now [v ->]]] | ->]; cbn [cf_info cf_set_version cf_remove_version].
+    + now rewrite alookup_aset_other.
+    + now rewrite alookup_aremove_other.
+Qed.
+Print Assumptions chain_rewrite_keeps_others.
+
 (* ------------------------------------------------------------------ relocation *)
 
 (* The general statement.  A product with directory placement dk and table placement tk is
